@@ -16,7 +16,7 @@ echo "## demo on unchanged tree" >> $log
 ( cd $WT && timeout 600 go test -overlay /tmp/ovout/v$ID/ov.json -vet=off -count=1 -timeout 300s -run "$RUN" ./$PKG ) >> $log 2>&1; clean=$?
 git apply $SO/patch.diff || { echo "patch does not apply" >> $log; exit 1; }
 echo "## build with change" >> $log
-( go build -overlay /tmp/ovout/v$ID/ov.json -o /dev/null ./... ) >> $log 2>&1; build=$?
+( go build -overlay /tmp/ovout/v$ID/ov.json -o /dev/null . ./exec ./frame ./sliceio ./sortio ./metrics ./internal/... ./slicetype ./slicefunc ./typecheck ./stats ) >> $log 2>&1; build=$?
 echo "## baseline 30 tests with change" >> $log
 ( go test -mod=mod -vet=off -count=1 ./cmd/slicetrace ./internal/walker ./internal/zero ./slicefunc ./slicetype ./stats ./typecheck ) >> $log 2>&1; base=$?
 echo "## demo with change" >> $log
